@@ -7,6 +7,7 @@
    the last component (the outcome) is computed – by the MODEL from those readings, and
    judged by the SPEC from those readings. *)
 From BV Require Import Common.Base Common.Hash Model.Merkle Spec.Merkle Gen.Core.
+From BV Require Import Common.Codec Common.Tx Spec.Wire Model.Wire Model.Weight Run.TxVal.
 
 Definition unconstrained : val := VErr 0.
 Definition bad_args : val := VErr 998.
@@ -156,5 +157,19 @@ Definition run_C15 (op : Z) (args : list val) : val :=
           end
       | _ => VList [bad_args; unconstrained]
       end
+  | 7, [tv; impl] =>               (* calc_weight of a transaction given as a value (wire model) *)
+      match tx_of_val tv with
+      | Some t =>
+          VList [vres VInt (tx_calc_weight t);
+                 if wf_txb MAX_SIZE t && negb (is_nil (tx_vout t))
+                 then judge impl (VInt (3 * lenZ (wire_tx_stripped t) + lenZ (wire_tx t))) else unconstrained]
+      | None => VList [bad_args; unconstrained] end
+  | 8, [bv; impl] =>               (* GetWeight of a block given as a value *)
+      match block_of_val bv with
+      | Some b =>
+          VList [VInt (block_get_weight b);
+                 if wf_blockb MAX_SIZE b
+                 then judge impl (VInt (3 * lenZ (wire_block_stripped b) + lenZ (wire_block b))) else unconstrained]
+      | None => VList [bad_args; unconstrained] end
   | _, _ => bad_args
   end.
